@@ -245,6 +245,8 @@ type Proc struct {
 	Stderr bytes.Buffer
 	// a failed stdout or stderr stays failed (the disk stays full)
 	stdoutErr, stderrErr syscall.Errno
+	// named pipes whose only writer has closed them: the reader is gone
+	fifoDone map[string]bool
 	Steps  []StepRec
 	Fired  []Fault
 	Clock  int64 // logical clock: one tick per step
@@ -650,6 +652,13 @@ func OpenFile(name string, flag int) (*Handle, error) {
 		return nil, pathErr("open", name, syscall.EEXIST)
 	}
 	if p.FS.Fifos[name] {
+		if p.fifoDone[name] {
+			// the reader saw end of file when the first writer closed the
+			// pipe and is gone: opening it for writing now blocks for ever
+			rec.Result = "blocks: nobody reads the pipe any more"
+			p.gone = StepLimitPanic{len(p.Steps)}
+			p.leave()
+		}
 		// nothing to truncate; every write appends to what the reader has
 		rec.Result = "ok (fifo)"
 		return &Handle{Name: name, write: true, app: true, std: -1}, nil
@@ -954,6 +963,12 @@ func (h *Handle) Close() error {
 	h.closed = true
 	if !h.write {
 		return nil
+	}
+	if p.FS.Fifos[h.Name] {
+		if p.fifoDone == nil {
+			p.fifoDone = map[string]bool{}
+		}
+		p.fifoDone[h.Name] = true
 	}
 	rec, f := p.step(SClose, h.Name)
 	if f != nil && f.Kind == FCloseEIO {
